@@ -151,10 +151,13 @@ structure VPad where
 def VPad.ok (cs : CharSpec) (p : VPad) : Bool :=
   padOK cs p.pre && padOK cs p.post && p.lo.ok cs && p.hi.ok cs && padOK cs p.m1 && padOK cs p.m2
 
-def spellVal : AVal → VPad → List Tok
-  | .num n, p => p.pre ++ spellNum n p.lo ++ p.post
-  | .range lo hi, p => p.pre ++ spellNum lo p.lo ++ p.m1 ++ [tk .minus ['-']] ++ p.m2 ++ spellNum hi p.hi ++ p.post
-  | .text l, p => p.pre ++ l ++ p.post
+/-- the value without the padding at its ends -/
+def spellCore : AVal → VPad → List Tok
+  | .num n, p => spellNum n p.lo
+  | .range lo hi, p => spellNum lo p.lo ++ p.m1 ++ [tk .minus ['-']] ++ p.m2 ++ spellNum hi p.hi
+  | .text l, _ => l
+
+def spellVal (v : AVal) (p : VPad) : List Tok := p.pre ++ spellCore v p ++ p.post
 
 def AVal.denote {α : Type} [Arith α] : AVal → Value α
   | .num n => .number n.denote
